@@ -111,6 +111,9 @@ def check(rep, model, tier):
             rep.ok('EMPTY-EPOCH', det, dsite, found='no unguarded constant-index store')
     common.roview(rep, model, ['detect_bursts_cycles', 'detect_bursts_amp', 'epoch_df'])
     rep.rule('EFF-ROVIEW', 'no write into a read-only array view of a pandas object on the re-labelling path')
+    rep.rule('COPY-FIRST', 'compute_features_2d consumes the per-epoch option dictionaries with pop(): it does so on its own deep copy and writes through none of its arguments, so a '
+                           'per-epoch list re-labels each epoch with its own thresholds on every call, not only the first (shared with C11 / C15)')
+    common.args_intact(rep, model, ['compute_features_2d', 'epoch_df'], rule='COPY-FIRST', why='the per-epoch option list is read again by the next call')
     rep.floor('rule instances', len(rep.instances), 15)
 
 
